@@ -328,8 +328,10 @@ def second_quant_session(rng, sid, p):
     from . import core_nof
 
     modes_all = [[("boson", "a")], [("boson", "a"), ("fermion", "c")], [("boson", "a"), ("spin", "s")],
-                 [("fermion", "c"), ("fermion", "d")], [("ladder", "l")], [("boson", "a"), ("boson", "b")]]
-    mk = rng.choice(modes_all)
+                 [("fermion", "c"), ("fermion", "d")], [("ladder", "l")], [("boson", "a"), ("boson", "b")],
+                 [("ladder", "l"), ("fermion", "c")], [("ladder", "l"), ("spin", "s")],
+                 [("boson", "a"), ("ladder", "l")]]
+    mk = modes_all[(sid - 1000) % len(modes_all)] if sid >= 1000 else rng.choice(modes_all)   # every combination in turn
     modes = []
     for kind, name in mk:
         lo, hi = (0, 6) if kind == "boson" else (-4, 4) if kind == "ladder" else (0, 1)
@@ -354,7 +356,7 @@ def second_quant_session(rng, sid, p):
         return e
 
     sizes = [rng.choice([1, 2]), rng.choice([1, 2])]
-    equal_sectors = rng.random() < 0.25
+    equal_sectors = (sid - 1000) % 4 == 3 if sid >= 1000 else rng.random() < 0.25
     if equal_sectors:
         # two blocks whose unperturbed sectors are THE SAME operator expression: the equation for the
         # off-diagonal block is still well defined for a right-hand side without number-conserving part
@@ -397,6 +399,14 @@ def second_quant_session(rng, sid, p):
                 elif r < 0.6:
                     t = t * Ns[q]
             terms.append(t)
+        # a density of a two-level mode times a shift of an unbounded mode (g n_f (m + m^dagger)): the
+        # coefficient depends on the number operator of a mode the term does NOT shift
+        two = [q for q, m_ in enumerate(modes) if m_["kind"] in ("fermion", "spin")]
+        unb = [q for q, m_ in enumerate(modes) if m_["kind"] in ("boson", "ladder")]
+        if two and unb and rng.random() < 0.7:
+            o_ = ops[rng.choice(unb)]
+            terms.append(sympy.Rational(rng.randint(1, 3), rng.choice([1, 2])) * Ns[rng.choice(two)]
+                         * (o_ if rng.random() < 0.5 else Dagger(o_)))
         return sum(terms, sympy.S.Zero)
 
     i, j = rng.choice([(0, 1), (1, 0), (0, 0), (1, 1)])
